@@ -17,7 +17,7 @@ import json, os, random, re, shutil, subprocess, sys
 HERE = os.path.dirname(os.path.abspath(__file__))
 VERIF = os.path.dirname(HERE)
 LEAN = os.path.join(VERIF, "lean")
-SCRATCH = "/var/tmp/w-rs2lean-test"
+SCRATCH = os.environ.get("RS2LEAN_TEST_SCRATCH", "/var/tmp/w-rs2lean-test")
 
 SNIPPETS = r'''
 const K: usize = 3;
@@ -521,11 +521,15 @@ SEEDED = [
 
 
 def part3():
+    os.makedirs(SCRATCH, exist_ok=True)
     repo = os.path.join(SCRATCH, "seeded_repo")
     fails = 0
     import gen_source
     real = gen_source.REPO
+    only = [a.split("=", 1)[1].split(",") for a in sys.argv if a.startswith("--seeded-keys=")]
     for n, (key, mod, rfile, old, new, must_build) in enumerate(SEEDED + SEEDED_MORE):
+        if only and key not in only[0]:
+            continue
         shutil.rmtree(repo, ignore_errors=True)
         shutil.copytree(os.path.join(real, "src"), os.path.join(repo, "src"))
         path = os.path.join(repo, rfile)
@@ -555,7 +559,20 @@ def part3():
     return fails
 
 
-SEEDED_MORE = []
+# session 4 (w-gentie): seeded edits for the tie modules C15Gen (parameter functions, base-128, magic block), ...
+SEEDED_MORE = [
+    ("C15", "C15Gen", "src/enc/encode.rs", "    if params.catable {\n        params.appendable = true;\n    }\n}", "    if !params.catable {\n        params.appendable = true;\n    }\n}", False),
+    ("C15", "C15Gen", "src/enc/encode.rs", "    params.quality = min(11i32, max(0i32, params.quality));", "    let lower = max(0i32, params.quality);\n    params.quality = min(11i32, lower);", True),
+    ("C15", "C15Gen", "src/enc/encode.rs", "if params.quality >= 9i32 && (params.lgwin > lgblock) {", "if params.quality > 9i32 && (params.lgwin > lgblock) {", False),
+    ("C15", "C15Gen", "src/enc/encode.rs", "total = delta.wrapping_add(tail) as u32;", "total = tail as u32;", False),
+    ("C15", "C15Gen", "src/enc/encode.rs", "            let delta: u64 = self.unprocessed_input_size();\n            let tail: u64 = available_in as u64;\n            let limit: u32 = 1u32 << 30;\n            let total: u32;\n            if delta >= u64::from(limit)\n                || tail >= u64::from(limit)\n                || delta.wrapping_add(tail) >= u64::from(limit)",
+     "            let pending: u64 = self.unprocessed_input_size();\n            let tail: u64 = available_in as u64;\n            let limit: u32 = 1u32 << 30;\n            let total: u32;\n            let delta = pending;\n            if delta >= u64::from(limit)\n                || tail >= u64::from(limit)\n                || delta.wrapping_add(tail) >= u64::from(limit)", True),
+    ("C15", "C15Gen", "src/enc/brotli_bit_stream.rs", "        value >>= 7;\n        if value != 0 {\n            ret[index] |= 0x80;", "        value >>= 8;\n        if value != 0 {\n            ret[index] |= 0x80;", False),
+    ("C15", "C15Gen", "src/enc/brotli_bit_stream.rs", "        value >>= 7;\n        if value != 0 {\n            ret[index] |= 0x80;", "        value >>= 7;\n        if value != 0 {\n            ret[index] = ret[index] | 0x80;", True),
+    ("C15", "C15Gen", "src/enc/brotli_bit_stream.rs", "let magic_number: [u8; 3] = if params.catable && !params.use_dictionary {", "let magic_number: [u8; 3] = if params.catable {", False),
+    ("C15", "C15Gen", "src/enc/brotli_bit_stream.rs", "    for magic in magic_number.iter() {\n        BrotliWriteBits(8u8, u64::from(*magic), storage_ix, storage);", "    for m in magic_number.iter() {\n        BrotliWriteBits(8u8, u64::from(*m), storage_ix, storage);", True),
+    ("C15", "C15Gen", "src/enc/brotli_bit_stream.rs", "    BrotliWriteBits(8u8, u64::from(VERSION), storage_ix, storage);\n    for sh in", "    for sh in", False),
+]
 
 if __name__ == "__main__":
     f = 0
